@@ -107,7 +107,9 @@ def call_list(seed):
                  "BE68539007547034", "FI2112345600000785", "IT60X0542811101000000123456", "PL61109010140000071219812874"):
         calls += [["iban", iban, True], ["iban", iban, True], ["natl", iban[:2], iban[4:]]]
     for m, a in (("DE:16", "4497144122"), ("DE:16", "0109900011"), ("DE:25", "6888784125"), ("DE:25", "8871378905"),
-                 ("DE:02", "0939900009"), ("DE:02", "3280387012"), ("DE:00", "9290701"), ("DE:24", "6605971578")):
+                 ("DE:02", "0939900009"), ("DE:02", "3280387012"), ("DE:00", "9290701"), ("DE:24", "6605971578"),
+                 ("DE:88", "0012525259"), ("DE:88", "0090013000"), ("DE:88", "0012525259"), ("DE:88", "0099913003"),
+                 ("DE:21", "0000000000"), ("DE:13", "0532013000"), ("DE:68", "8889654328")):
         calls.append(["algo", m, a.zfill(10)])
     for b in ("GENODEM1GLS", "GENODEM1GL!", "DEUTDEFF", "AAAAXX22", "1234DEWWXXX"):
         calls += [["bic", b, False], ["bic", b, True]]
